@@ -28,6 +28,11 @@ ASSUMED = {
     "dict": "dict lookup raises KeyError iff the key is absent; insertion order iteration",
     "fractions.Fraction": "Fraction is an exact rational: + - * exact, / and % raise ZeroDivisionError iff divisor is 0",
     "str.lower": "str.lower is an uninterpreted per-string function unless the string is concrete",
+    "str.split": "s.split(c) for a one-character c: >= 1 components, none contains c, one component iff c not in s "
+                 "(then it is s), s starts with the first and ends with the last component (canonical function of s)",
+    "str.strip": "str.strip is an uninterpreted per-string function unless the string is concrete",
+    "pathlib (pure paths)": "a path is an opaque value with .parent / .stem / .name / .parts as uninterpreted functions; "
+                            "Path(p) of a path is that path; nothing about the file system is modelled",
 }
 
 BUILTIN_FUNCS = {
@@ -69,6 +74,8 @@ class Lib:
 
     # ------------------------------------------------------------------ attribute access on non-repo values
     def getattr(self, ctx, o, name: str):
+        if isinstance(o, V.PathV):
+            return self.path_attr(ctx, o, name)
         if isinstance(o, V.FractionV):
             if name == "denominator":
                 d = self.e.uf("frac!den", z3.RealSort(), z3.IntSort())(o.term)
@@ -383,6 +390,16 @@ class Lib:
 
     # ------------------------------------------------------------------ comparisons
     def order(self, ctx, op, a, b):
+        if isinstance(a, OptV) or isinstance(b, OptV):
+            # None is not orderable (TypeError); a present value compares as itself
+            vals = []
+            for x in (a, b):
+                if isinstance(x, OptV):
+                    if ctx.decide(lift(self.e, ctx, x.is_none)):
+                        raise self.raise_ext("TypeError")
+                    x = x.val
+                vals.append(x)
+            a, b = vals
         if isinstance(a, V.Opaque) or isinstance(b, V.Opaque):
             raise EngineLimit("ordering comparison with an unmodelled value")
         if isinstance(a, V.FractionV) or isinstance(b, V.FractionV):
@@ -645,6 +662,11 @@ class Lib:
             # int(Fraction) truncates toward zero
             t = x.term
             return z3.If(t >= 0, z3.ToInt(t), -z3.ToInt(-t))
+        if isinstance(x, OptV):
+            # int(None) raises TypeError
+            if ctx.decide(lift(self.e, ctx, x.is_none)):
+                raise self.raise_ext("TypeError")
+            return self.bi_int(ctx, x.val, base)
         if isinstance(x, str):
             try:
                 return int(x) if base is None else int(x, base)
@@ -1050,6 +1072,26 @@ class Lib:
     bi_Fraction = bi_fractions_Fraction
     bi_frac = bi_fractions_Fraction
 
+    def bi_pathlib_Path(self, ctx, p):
+        if isinstance(p, V.PathV):
+            return p
+        raise EngineLimit("Path(%r)" % (p,))
+
+    bi_Path = bi_pathlib_Path
+    bi_pathlib_PurePath = bi_pathlib_Path
+
+    def path_attr(self, ctx, o, name):
+        P, S, I_ = V.PathSort, z3.StringSort(), z3.IntSort()
+        if name == "parent":
+            return V.PathV(self.e.uf("path!parent", P, P)(o.term))
+        if name in ("stem", "name", "suffix"):
+            return self.e.uf("path!" + name, P, S)(o.term)
+        if name == "parts":
+            ln = self.e.uf("path!nparts", P, I_)(o.term)
+            ctx.assume(ln >= 0)
+            return SymSeq(self.e.uf("path!parts", P, z3.ArraySort(I_, S))(o.term), ln, V.Str)
+        raise EngineLimit("path attribute %s" % name)
+
     def bi_typing_cast(self, ctx, t, v):
         return v
 
@@ -1147,6 +1189,13 @@ class Lib:
         if ctx.collector is not None and ctx.collector.owns(o):
             ctx.collector.add(ctx, o, x)
             return
+        if o.elem_sort == z3.IntSort() and (isinstance(x, str) or (isinstance(x, z3.ExprRef) and z3.is_string(x))):
+            from .loops import _is_empty_set
+
+            if not _is_empty_set(o.term):
+                raise EngineLimit("string added to a set of integers")
+            o.term = z3.K(z3.StringSort(), z3.BoolVal(False))  # `set()` literal: element type fixed by the first add
+            o.elem_sort = z3.StringSort()
         o.term = z3.Store(o.term, container_elem(o, x), z3.BoolVal(True))
 
     def m_set_issuperset(self, ctx, o, other):
@@ -1216,7 +1265,31 @@ class Lib:
     def m_str_split(self, ctx, o, sep=None):
         if isinstance(o, str) and isinstance(sep, str):
             return PyList(o.split(sep))
+        if isinstance(sep, str) and len(sep) == 1 and isinstance(o, z3.ExprRef) and z3.is_string(o):
+            return self.split_seq(ctx, o, sep)
         raise EngineLimit("split of a symbolic string")
+
+    def split_seq(self, ctx, o, sep: str):
+        """s.split(<one character>): canonical sequence split!<sep>(s) (a function of s) with the characteristic facts
+        ASSUMED from the definition of str.split: at least one component; no component contains the separator; exactly
+        one component iff s does not contain the separator, and then it is s; the separator count is len - 1;
+        s is the join of the components (stated for the first and the last component: s starts with c[0] and ends with
+        c[-1], each followed / preceded by the separator when there are several)."""
+        tag = "%x" % ord(sep)
+        S, I_ = z3.StringSort(), z3.IntSort()
+        arr = self.e.uf("split!%s!arr" % tag, S, z3.ArraySort(I_, S))(o)
+        ln = self.e.uf("split!%s!len" % tag, S, I_)(o)
+        sv = z3.StringVal(sep)
+        k = z3.FreshConst(I_, "k")
+        ctx.assume(ln >= 1)
+        ctx.assume((ln == 1) == z3.Not(z3.Contains(o, sv)))
+        ctx.assume(z3.Implies(ln == 1, z3.Select(arr, 0) == o))
+        ctx.add_axiom(z3.ForAll([k], z3.Implies(z3.And(0 <= k, k < ln), z3.Not(z3.Contains(z3.Select(arr, k), sv))),
+                                patterns=[z3.Select(arr, k)]))
+        ctx.assume(z3.Implies(ln > 1, z3.And(z3.PrefixOf(z3.Concat(z3.Select(arr, 0), sv), o),
+                                             z3.SuffixOf(z3.Concat(sv, z3.Select(arr, ln - 1)), o))))
+        ctx.assume(z3.Length(o) >= ln - 1)
+        return SymSeq(arr, ln, V.Str, fresh=True)
 
     def m_str_encode(self, ctx, o, enc="utf8"):
         # ASSUMED (CPython): str.encode('utf8') raises UnicodeEncodeError iff the string contains a surrogate
